@@ -1,6 +1,6 @@
 (* C12 — proofs about the RTSP session model (Model/C12RtspSession.v) *)
 From Coq Require Import ZArith List Bool Lia.
-From V Require Import Bytes StrGo BytesLemmas C12RtspSession.
+From V Require Import Bytes StrGo BytesLemmas C12RtspSession C12TransportProofs.
 Import ListNotations.
 Open Scope Z_scope.
 
@@ -103,6 +103,18 @@ Proof.
   try (left; reflexivity);
   try (right; repeat split; solve [reflexivity | discriminate]);
   try (right; split; [assumption | do 2 eexists; repeat split; eassumption]).
+Qed.
+
+(* a SETUP is answered 2xx only when its Transport header is valid (specification [transport_invalid]) *)
+Lemma do_setup_valid : forall e s q s' c,
+  do_setup e s q = (s', c) -> is_2xx c = true -> transport_invalid (q_transport q) = false.
+Proof.
+  intros e s q s' c. unfold do_setup, ready_of, live.
+  repeat break_goal; intro; inv_pairs; cbn; intros Hx; try discriminate Hx;
+  match goal with
+  | H : parse_transport (s_tr s) (q_transport q) = (_, false) |- _ =>
+      rewrite <- (parse_transport_err_is_spec (s_tr s) (q_transport q)), H; reflexivity
+  end.
 Qed.
 
 (* ---------------------------------------------------------------- what one step can do *)
@@ -336,4 +348,15 @@ Proof.
   exists {| q_meth := MPlay; q_cseq := [49]; q_url := [117]; q_path := [47]; q_transport := [];
             q_ctype_ok := false; q_sdp := 0 |}.
   repeat split; reflexivity.
+Qed.
+
+Lemma step_setup_valid : forall e s q s' c fs,
+  s_closed s = false -> step e s q = (s', [resp c q], fs) ->
+  q_meth q = MSetup -> is_2xx c = true -> transport_invalid (q_transport q) = false.
+Proof.
+  intros e s q s' c fs Hc Hs Hm H2. unfold step, step_gen in Hs. rewrite Hc, Hm in Hs.
+  destruct (negb (legal_go (s_status s) MSetup)).
+  - inversion Hs; subst. discriminate H2.
+  - destruct (do_setup e s q) as [s1 c1] eqn:Hd. inversion Hs; subst.
+    eapply do_setup_valid; eauto.
 Qed.
